@@ -24,6 +24,7 @@ THEOREMS = [
     "C13_setup_py_partial", "C13_setup_py_all_programs_partial", "C13_capture_warnings_undone",
     "C13_process_survives_os_exit", "C13_early_return_restores", "C13_pyproject_partial", "C13_pyproject_argv_restored",
     "C13_mutable_contents_partial", "C13_project_files_untouched_partial",
+    "C13_unreadable_script_is_raise", "C13_pyproject_two_threads_cwd",
     "C13_threads_refuted", "C13_host_module_purged_refuted", "C13_real_fs_ops_refuted",
 ]
 RULE = ("(a) random op sequences (begin_patch / end_patch / patch enter / patch exit, direct set/del, module "
@@ -35,7 +36,9 @@ RULE = ("(a) random op sequences (begin_patch / end_patch / patch enter / patch 
         "ends by finishing, raising, sys.exit or os._exit; extract_metadata runs in a worker process; the listed process "
         "state (every patched attribute, cwd, sys.path, sys.meta_path, tracked sys.modules keys), the working-directory "
         "listing and a content hash of the project are compared with the model's prediction for that effect sequence.  "
-        "Non-trivial = the script performs at least one effect or a non-Finish ending; distinct = distinct "
+        "Endings include a setup.py that cannot be read (not UTF-8).  (c) two PEP 517 analyses on two real threads, the first "
+        "backend slow, the second started while the first holds the lock; final working directory compared with the model's "
+        "two-thread schedule.  Non-trivial = the script performs at least one effect or a non-Finish ending; distinct = distinct "
         "(initial-state variation, packaging, effect sequence, ending).")
 TRUSTED_BASE = [
     "T1 harness/tr_c13.py: argument lists of every patch()/begin_patch() call, the statements of the finally block of "
@@ -386,6 +389,11 @@ def gen_ops(rng, keys: List[Tuple[str, str]], cython: bool, n: int, case_id: int
                     src = k
                 if k in MUTABLE_KEYS and src not in MUTABLE_KEYS:
                     src = rng.choice(MUTABLE_KEYS)
+                if src == ("os", "_exit") and k != src:
+                    # the replacement of os._exit is sys.exit: copied under another name it gets CALLED by the
+                    # analyser's own fakes (os.getcwd inside _fake_chdir) and ends the script there - calling a
+                    # copied function is outside the effect alphabet (only os.chdir/os._exit/os.path.abspath are modelled)
+                    src = k
                 pv = ["C", src[0], src[1]]
             ops.append(["W", k[0], k[1], pv])
         elif r < 0.58:
@@ -457,6 +465,8 @@ def gen_case(rng, i: int, keys: List[Tuple[str, str]], real_fallback: bool) -> D
     c["setup_at"] = 0 if r < 0.6 else None if r < 0.8 else (len(c["ops"]) if not has_wd else 0)
     r = rng.random()
     c["ending"] = "finish" if r < 0.4 else "raise" if r < 0.65 else "sysexit" if r < 0.85 else "osexit"
+    if not pyproject and rng.random() < 0.08:
+        c["ending"] = "unreadable"          # a setup.py that is not UTF-8: the read of the script fails
     if pyproject and c["ending"] == "osexit" and rng.random() < 0.8:
         c["ending"] = "raise"          # a real os._exit kills the worker: keep those rare
     c["raise_cls"] = rng.choice(RAISE_CLS)
@@ -522,6 +532,9 @@ def effective_program(case: Dict[str, Any]) -> Dict[str, Any]:
     """What of the script is actually executed (early returns / missing setup.py run nothing)."""
     if case.get("early"):
         return {**case, "ops": [], "imports": [], "ending": "finish", "fops": []}
+    if case.get("ending") == "unreadable" and case["kind"] == "setup":
+        # nothing of the script runs (the model drops the ops itself: eff_ops); no file operations either
+        return {**case, "fops": [], "imports": []}
     if case.get("init", {}).get("cython") == "noattr" and case["kind"] == "setup":
         # `old_cythonize = Cython.Build.cythonize` raises before the script is read: nothing of it runs
         # (the model decides that itself for the process state; the file operations are listed here)
@@ -843,7 +856,7 @@ def coq_prog(case: Dict[str, Any], root: str) -> str:
         elif t == "M":
             k = key()
             ops.append("OMutate %s %s" % (k, nxt()))
-    en = {"finish": "Finish", "raise": "Raise", "sysexit": "SysExit", "osexit": "OsExit"}[nxt()]
+    en = {"finish": "Finish", "raise": "Raise", "sysexit": "SysExit", "osexit": "OsExit", "unreadable": "Unreadable"}[nxt()]
     return "([%s], %s)" % ("; ".join(ops), en)
 
 
@@ -928,6 +941,55 @@ def corpus_cases() -> List[Tuple[str, Dict[str, Any]]]:
     return out
 
 
+def thread_cases(base: int) -> List[Dict[str, Any]]:
+    out = []
+    for j, (ov, ar, br) in enumerate([(True, False, False), (True, True, False), (True, False, True), (False, False, False)]):
+        out.append({"id": base + j, "kind": "pyproject2", "overlap": ov, "a_raises": ar, "b_raises": br})
+    return out
+
+
+def thread_model_line(case: Dict[str, Any]) -> str:
+    sched = ([1, 1, 1] + [0, 0, 0] + [1] * 6 + [0] * 8) if case["overlap"] else ([1] * 8 + [0] * 8)
+    return "T %s %s %s 0 0 %d %s" % (hx("CWD0"), hx("PROJ_A"), hx("PROJ_B"), len(sched), " ".join(str(x) for x in sched))
+
+
+def oracle_threads(rec: Dict[str, Any]) -> Optional[str]:
+    if rec.get("worker_error") or rec.get("dead"):
+        return None
+    if not rec.get("alive", True):
+        return "an analysis did not finish"
+    if rec["cwd"] != "CWD0":
+        return "the working directory of the process is %s after two PEP 517 analyses on two threads" % rec["cwd"]
+    if rec["changed"]:
+        return "%s is not what it was before the two analyses" % rec["changed"][0]
+    if not rec["path_same"]:
+        return None      # the harness itself put the two project directories on sys.path
+    return None
+
+
+def correspondence_threads(ctx: Ctx) -> None:
+    keys, _ = key_table()
+    cases = thread_cases(400000)[: ctx.n(2, 4)]
+    recs = run_workers(ctx, keys, cases, nworkers=1)
+    lines = [thread_model_line(c) for c in cases]
+    answers = run_model("C13", lines)
+    for c, ans in zip(cases, answers):
+        r = recs.get(c["id"])
+        ctx.count("c:two-thread-pep517:" + ("overlap" if c["overlap"] else "sequential"))
+        if not r or r.get("worker_error") or r.get("dead"):
+            ctx.mismatch("worker-error", c, (r or {}).get("worker_error", "no record")[-600:], "(n/a)")
+            continue
+        model_cwd, model_state = ans.split()
+        impl = (r["cwd"], "done" if r.get("alive", True) else "running")
+        ctx.case(key=("c", json.dumps(c, sort_keys=True)), nontrivial=c["overlap"],
+                 sample={"kind": "two-thread PEP 517", "case": c, "impl": r, "model": ans} if c["overlap"] and not c["a_raises"] and not c["b_raises"] else None)
+        if impl != (common.unhx(model_cwd), model_state):
+            ctx.mismatch("two-thread-cwd", c, {"cwd": r["cwd"], "seen": r.get("seen"), "out": r.get("out")},
+                         {"cwd": common.unhx(model_cwd), "state": model_state})
+        if c["overlap"] and r.get("seen", {}).get("b") not in ("PROJ_B",):
+            ctx.notes.append("two-thread case %d: backend B saw cwd %r" % (c["id"], r.get("seen", {}).get("b")))
+
+
 def correspondence(ctx: Ctx) -> None:
     t0 = time.time()
     correspondence_patch_py(ctx)
@@ -935,6 +997,7 @@ def correspondence(ctx: Ctx) -> None:
     extra = [dict(c, orig_id=c["id"]) for _, c in corpus_cases()]
     ctx.count("corpus:analysis-cases", len(extra))
     correspondence_analyser(ctx, extra)
+    correspondence_threads(ctx)
     ctx.extra["t2_wall_s"] = {"patch_py": round(t1 - t0, 1), "analyser": round(time.time() - t1, 1),
                               "since_start": round(time.time() - ctx.t0, 1)}
 
@@ -1068,6 +1131,14 @@ def search(ctx: Ctx) -> Optional[Dict[str, Any]]:
             c.pop("early", None)
             directed.append(c)
             i += 1
+    for pk in ("dir", "tgz", "zip"):
+        c = gen_case(rng, i, keys, real_fallback=False)
+        c.update({"kind": "setup", "packaging": pk, "name": "c13p%d" % i,
+                  "init": {"captured": True, "host_mods": [], "cwd_in_project": False}, "imports": [], "fops": [],
+                  "ops": [], "setup_at": 0, "ending": "unreadable"})
+        c.pop("early", None)
+        directed.append(c)
+        i += 1
     for kind in ("pyproject", "setup"):
         for en in ("finish", "raise", "sysexit"):
             c = gen_case(rng, i, keys, real_fallback=False)
@@ -1080,6 +1151,13 @@ def search(ctx: Ctx) -> Optional[Dict[str, Any]]:
     cases = []
     for j, c in enumerate(suspects[:40] + directed + fresh):
         cases.append(normalise_ids(dict(c, orig_id=c["id"]), 200000 + j))
+    tcases = thread_cases(500000)
+    trecs = run_workers(ctx, keys, tcases, nworkers=1)
+    for c in tcases:
+        r = trecs.get(c["id"])
+        why = oracle_threads(r) if r else None
+        if why:
+            return {"kind": "pyproject2", "input": c, "why": why, "observed": {k: r.get(k) for k in ("cwd", "seen", "out")}}
     recs = run_workers(ctx, keys, cases, nworkers=6)
     for c in cases:
         r = recs.get(c["id"])
@@ -1111,6 +1189,12 @@ def _run_one(ctx: Ctx, case: Dict[str, Any]) -> Optional[Dict[str, Any]]:
 
 def replay(ctx: Ctx, payload: Dict[str, Any]) -> bool:
     fi = payload.get("failing_input")
+    if fi and fi.get("kind") == "pyproject2":
+        keys, _ = key_table()
+        c = dict(fi["input"], id=600000)
+        recs = run_workers(ctx, keys, [c], nworkers=1)
+        r = recs.get(c["id"])
+        return bool(r) and oracle_threads(r) is not None
     if not fi or fi.get("kind") != "analysis":
         return False
     got = _run_one(ctx, fi["input"])
